@@ -228,6 +228,39 @@ func (ts *TermStore) Eq(x, y *Term) *Term {
 	if x.op == OpNum || y.op == OpNum {
 		panic(unsupported("Eq on Num pseudo-byte"))
 	}
+	if x.w > 0 && (isLinOp(x) || isLinOp(y)) {
+		l := ts.toLin(x, 0)
+		r := ts.toLin(y, 0)
+		if l != nil && r != nil {
+			l.addScaled(r, mask(x.w))
+			// split into positive and negative parts
+			pos := &lin{w: x.w, coef: map[int]uint64{}, atom: map[int]*Term{}}
+			neg := &lin{w: x.w, coef: map[int]uint64{}, atom: map[int]*Term{}}
+			for id, c := range l.coef {
+				if c == 0 {
+					continue
+				}
+				if c > mask(x.w)/2 {
+					neg.coef[id] = (-c) & mask(x.w)
+					neg.atom[id] = l.atom[id]
+				} else {
+					pos.coef[id] = c
+					pos.atom[id] = l.atom[id]
+				}
+			}
+			neg.c = (-l.c) & mask(x.w)
+			if len(pos.coef) == 0 && len(neg.coef) == 0 {
+				return ts.Bool(neg.c == 0)
+			}
+			x, y = ts.fromLin(pos), ts.fromLin(neg)
+			if x == y {
+				return ts.Bool(true)
+			}
+			if x.IsConst() && y.IsConst() {
+				return ts.Bool(x.cval == y.cval)
+			}
+		}
+	}
 	if x.id > y.id {
 		x, y = y, x
 	}
@@ -333,6 +366,18 @@ func (ts *TermStore) bin(op Op, x, y *Term) *Term {
 			return ts.Bool(sext(a, w) <= sext(b, w))
 		}
 	}
+	if (op == OpAdd || op == OpSub) && w > 0 {
+		l := ts.toLin(x, 0)
+		r := ts.toLin(y, 0)
+		if l != nil && r != nil {
+			if op == OpAdd {
+				l.addScaled(r, 1)
+			} else {
+				l.addScaled(r, mask(w))
+			}
+			return ts.fromLin(l)
+		}
+	}
 	rw := w
 	switch op {
 	case OpULt, OpULe, OpSLt, OpSLe:
@@ -404,6 +449,11 @@ func (ts *TermStore) BNot(x *Term) *Term {
 func (ts *TermStore) Neg(x *Term) *Term {
 	if x.IsConst() {
 		return ts.BV(-x.cval, x.w)
+	}
+	if l := ts.toLin(x, 0); l != nil {
+		z := &lin{w: x.w, coef: map[int]uint64{}, atom: map[int]*Term{}}
+		z.addScaled(l, mask(x.w))
+		return ts.fromLin(z)
 	}
 	return ts.mk(OpNeg, x.w, []*Term{x}, 0, "", 0, 0)
 }
@@ -575,3 +625,129 @@ func (t *Term) String() string {
 }
 
 var _ = bits.Len
+
+// ---------------------------------------------------------------- linear normal form (mod 2^w)
+
+type lin struct {
+	w    int
+	coef map[int]uint64
+	atom map[int]*Term
+	c    uint64
+}
+
+func isLinOp(t *Term) bool {
+	return t.op == OpAdd || t.op == OpSub || t.op == OpNeg || (t.op == OpMul && (t.args[0].IsConst() || t.args[1].IsConst()))
+}
+
+func (l *lin) addScaled(r *lin, k uint64) {
+	m := mask(l.w)
+	for id, c := range r.coef {
+		l.coef[id] = (l.coef[id] + c*k) & m
+		l.atom[id] = r.atom[id]
+	}
+	l.c = (l.c + r.c*k) & m
+}
+
+func (ts *TermStore) toLin(t *Term, depth int) *lin {
+	if depth > 200 || t.op == OpNum {
+		return nil
+	}
+	l := &lin{w: t.w, coef: map[int]uint64{}, atom: map[int]*Term{}}
+	switch t.op {
+	case OpConst:
+		l.c = t.cval
+	case OpAdd, OpSub:
+		a := ts.toLin(t.args[0], depth+1)
+		b := ts.toLin(t.args[1], depth+1)
+		if a == nil || b == nil {
+			return nil
+		}
+		l = a
+		if t.op == OpAdd {
+			l.addScaled(b, 1)
+		} else {
+			l.addScaled(b, mask(t.w))
+		}
+	case OpNeg:
+		a := ts.toLin(t.args[0], depth+1)
+		if a == nil {
+			return nil
+		}
+		l.addScaled(a, mask(t.w))
+	case OpMul:
+		var k *Term
+		var o *Term
+		if t.args[0].IsConst() {
+			k, o = t.args[0], t.args[1]
+		} else if t.args[1].IsConst() {
+			k, o = t.args[1], t.args[0]
+		}
+		if k == nil {
+			l.coef[t.id] = 1
+			l.atom[t.id] = t
+			break
+		}
+		a := ts.toLin(o, depth+1)
+		if a == nil {
+			return nil
+		}
+		l.addScaled(a, k.cval)
+	default:
+		l.coef[t.id] = 1
+		l.atom[t.id] = t
+	}
+	return l
+}
+
+func (ts *TermStore) fromLin(l *lin) *Term {
+	ids := make([]int, 0, len(l.coef))
+	for id, c := range l.coef {
+		if c != 0 {
+			ids = append(ids, id)
+		}
+	}
+	// insertion sort (small)
+	for i := 1; i < len(ids); i++ {
+		for j := i; j > 0 && ids[j] < ids[j-1]; j-- {
+			ids[j], ids[j-1] = ids[j-1], ids[j]
+		}
+	}
+	w := l.w
+	m := mask(w)
+	var acc *Term
+	var negs []*Term
+	for _, id := range ids {
+		c := l.coef[id]
+		a := l.atom[id]
+		switch {
+		case c == 1:
+			if acc == nil {
+				acc = a
+			} else {
+				acc = ts.mk(OpAdd, w, []*Term{acc, a}, 0, "", 0, 0)
+			}
+		case c == m:
+			negs = append(negs, a)
+		default:
+			p := ts.mk(OpMul, w, []*Term{ts.BV(c, w), a}, 0, "", 0, 0)
+			if acc == nil {
+				acc = p
+			} else {
+				acc = ts.mk(OpAdd, w, []*Term{acc, p}, 0, "", 0, 0)
+			}
+		}
+	}
+	if acc == nil {
+		acc = ts.BV(l.c, w)
+	} else if l.c != 0 {
+		acc = ts.mk(OpAdd, w, []*Term{acc, ts.BV(l.c, w)}, 0, "", 0, 0)
+	}
+	for _, n := range negs {
+		if acc.IsConst() && acc.cval == 0 {
+			acc = ts.mk(OpNeg, w, []*Term{n}, 0, "", 0, 0)
+		} else {
+			acc = ts.mk(OpSub, w, []*Term{acc, n}, 0, "", 0, 0)
+		}
+	}
+	return acc
+}
